@@ -81,7 +81,7 @@ def step (st : St) (ts : List String) : St × String :=
     | some par, some (x, [dist]) =>
       match parseFloatBits? dist with
       | some dist =>
-        if par < -1 || par ≥ (st.nextM : Int) then (st, "bad-op") else
+        if par < -1 || par ≥ (st.nextM : Int) || st.control then (st, "bad-op") else
         let r := add P st.d st.nextM x dist
         fin { st with d := r.1, nextM := st.nextM + 1, live := st.live ++ [st.nextM],
                       parents := st.parents ++ [(st.nextM, if par < 0 then none else some par.toNat)] }
